@@ -9,6 +9,7 @@ package sched
 import (
 	"fmt"
 	"runtime"
+	"runtime/debug"
 	"sort"
 	"strconv"
 	"strings"
@@ -115,6 +116,14 @@ func (s *Sched) Go(name string, fn func()) *mc.CallResult {
 			s.mu.Lock()
 			t.st = done
 			s.mu.Unlock()
+		}()
+		defer func() {
+			// a panic of an operation under test is a finding, not something to swallow: hand it to the harness
+			// (mc.Bubble reports it as the execution's panic) and let mc.Go capture it as before
+			if r := recover(); r != nil {
+				core.RecordPanic("scheduler thread "+name, r, debug.Stack())
+				panic(r)
+			}
 		}()
 		fn()
 	})
